@@ -4,6 +4,7 @@ Facts come from engines/astx (one JSON document per Cargo feature configuration)
 re-extracted from /repo's working tree and cached by content hash.
 """
 import hashlib
+import re
 import json
 import os
 import subprocess
@@ -388,7 +389,7 @@ def _subst(node, name, repl):
     return node
 
 
-def plain_arith(node, closures=None):
+def plain_arith(node, closures=None, helpers=None):
     """A copy of `node` in which overflow-safe spellings are replaced by the plain operator they
     implement and error plumbing is removed:
         a.checked_add(b) / a.wrapping_add(b)          -> (a + b)      (sub, mul, div, rem, shl, shr alike)
@@ -400,6 +401,7 @@ def plain_arith(node, closures=None):
         *x                                            -> x
     so that a rule about which operator an arm computes reads both spellings alike."""
     closures = closures or {}
+    helpers = helpers or {}
 
     def rec(n):
         if isinstance(n, list):
@@ -441,6 +443,8 @@ def plain_arith(node, closures=None):
                         x = conv["recv"]
                     if x is not None:
                         return rec(_subst(c["body"], ps[0], x))
+        if k == "call" and n["func"].get("k") == "path" and n["func"]["segs"][-1] in helpers and len(n.get("args", [])) == 2:
+            return {"k": "binary", "op": helpers[n["func"]["segs"][-1]], "l": rec(n["args"][0]), "r": rec(n["args"][1]), "loc": n.get("loc")}
         if k == "call" and n["func"].get("k") == "path" and len(n["func"]["segs"]) == 1 and n["func"]["segs"][0] in closures and len(n.get("args", [])) == 1:
             c = closures[n["func"]["segs"][0]]
             ps = [p.get("name") for p in c.get("params", []) if isinstance(p, dict)]
@@ -452,6 +456,23 @@ def plain_arith(node, closures=None):
         return {kk: (rec(v) if kk not in ("loc", "pat", "params") else v) for kk, v in n.items()}
 
     return rec(node)
+
+
+def arith_helpers(facts):
+    """Crate functions that compute one arithmetic operator on their two integer parameters with range checks around it
+    (`fn shift_left(l: i32, r: i32) -> Option<i32>`): name -> operator.  plain_arith reads a call of one as that operator."""
+    out = {}
+    for f in facts.fns:
+        ps = [p for p in f["params"] if p.get("name") != "self"]
+        if len(ps) != 2 or not all((p.get("ty") or "").strip() in ("i32", "i64", "u32", "usize") for p in ps):
+            continue
+        if not re.match(r"^Option<i(32|64)>$", f["ret"].replace(" ", "")):
+            continue
+        ops = {n["op"] for n in walk(f["body"]) if n.get("k") == "binary" and n["op"] in ("+", "-", "*", "/", "%", "<<", ">>")}
+        ops |= {_ARITH_METHODS[n["method"].split("_", 1)[1]] for n in walk(f["body"]) if n.get("k") == "mcall" and re.match(r"^(checked|wrapping)_(add|sub|mul|div|rem|shl|shr)$", n["method"])}
+        if len(ops) == 1:
+            out[f["name"]] = next(iter(ops))
+    return out
 
 
 def local_closures(fn_or_node):
